@@ -136,6 +136,7 @@ func (dm *DMap) deleteKey(key string) error {
 		return err
 	}
 	defer f.Unlock()
+	defer verifhook.At("del.unlocked", dm.name, key)
 	verifhook.At("del.locked", dm.name, key)
 
 	// Check the HKey before trying to delete it.
